@@ -377,7 +377,7 @@ impl Property for Relations {
     fn budget(&self, tier: Tier) -> Budget {
         Budget {
             cases: tier.pick(1_500_000, 60_000_000),
-            tape_len: 700,
+            tape_len: 4000,
         }
     }
     fn decode(&self, t: &mut Tape<'_>) -> RelCase {
